@@ -3,6 +3,7 @@ package c13
 
 import (
 	"github.com/alttpo/snes/emulator/bus"
+	"github.com/alttpo/snes/emulator/memory"
 
 	"verif/vp"
 )
@@ -251,5 +252,70 @@ func Dump(layout int, seg0 int, nseg int) {
 	vp.Assert("dump-position-i-holds-what-a-read-of-start+i-returns", okAttached)
 	vp.Assert("dump-leaves-unattached-positions-untouched", okHoles)
 	vp.Assert("dump-writes-nothing-beyond-the-range", okBeyond)
+	vp.Reach("end")
+}
+
+// Devices: the library's own memory devices behind the bus. A RAM window ($0F40-$0F7F) and a ROM
+// window ($0F80-$0FBF) with symbolic contents: a read returns the byte at (address - window start)
+// of the device attached over the address, a write into the RAM window changes exactly that byte and
+// no other device, and a dump across the RAM/ROM boundary returns what single reads return.
+func Devices() {
+	b, _ := bus.New()
+	ram, rom := vp.Bytes("ram", 64), vp.Bytes("rom", 64)
+	sram, srom := vp.Bytes("ram", 64), vp.Bytes("rom", 64)
+	vp.Assert("aligned-attach-accepted", b.Attach(memory.NewRAM(ram, 0x0F40), "ram", 0x0F40, 0x0F7F) == nil)
+	vp.Assert("aligned-attach-accepted", b.Attach(memory.NewROM(rom, 0x0F80), "rom", 0x0F80, 0x0FBF) == nil)
+	a := uint32(0x0F40) + uint32(vp.U8("offset")&0x7F)
+	inRAM := a < 0x0F80
+	var want byte
+	if inRAM {
+		want = sram[a-0x0F40]
+	} else {
+		want = srom[a-0x0F80]
+	}
+	var got byte
+	failed := vp.Try(func() { got = b.EaRead(a) })
+	vp.Assert("attached-address-is-served", !failed)
+	vp.Assert("device-read-returns-the-byte-at-address-minus-window-start", failed || got == want)
+	// a write into the RAM window (what a ROM device does with a write is its own business)
+	aw := uint32(0x0F40) + uint32(vp.U8("write-offset")&0x3F)
+	v := vp.U8("value")
+	failed = vp.Try(func() { b.EaWrite(aw, v) })
+	vp.Assert("attached-address-accepts-writes", !failed)
+	sram[aw-0x0F40] = v
+	vp.Assert("write-changes-exactly-the-addressed-byte-of-the-ram-and-no-other-device", vp.BytesEqual(ram, sram) && vp.BytesEqual(rom, srom))
+	data := vp.Bytes("dump", 36)
+	orig := make([]byte, 36)
+	copy(orig, data)
+	lo := uint32(vp.Choose("start-nibble", 16))
+	var n int
+	failed = vp.Try(func() { n = b.EaDump(0x0F70+lo, 0x0F8F, data) })
+	vp.Assert("dump-completes", !failed)
+	if failed {
+		return
+	}
+	count := int(0x0F8F-(0x0F70+lo)) + 1
+	vp.Assert("dump-returns-the-number-of-addresses", n == count)
+	ok, beyond := true, true
+	for i := 0; i < 36; i++ {
+		if i >= count {
+			if data[i] != orig[i] {
+				beyond = false
+			}
+			continue
+		}
+		ad := 0x0F70 + lo + uint32(i)
+		var w byte
+		if ad < 0x0F80 {
+			w = sram[ad-0x0F40]
+		} else {
+			w = srom[ad-0x0F80]
+		}
+		if data[i] != w {
+			ok = false
+		}
+	}
+	vp.Assert("dump-position-i-holds-what-a-read-of-start+i-returns", ok)
+	vp.Assert("dump-writes-nothing-beyond-the-range", beyond)
 	vp.Reach("end")
 }
